@@ -26,7 +26,8 @@
  * The harness then checks the log against pad(msg) cut into blocks, the chaining (state seen by call k == v_out[k-1],
  * call 0 sees the standard IV) and digest == serialisation of the last output.
  *
- * Needs from the including adapter:  A_BLK (block bytes), A_STW (state words), a_word_t, V_MAXCALLS, A_HAVOC (bytes).
+ * Needs from the including adapter:  A_BLK (block bytes), A_STW (state words), a_word_t, V_MAXCALLS, a_havoc_t, A_HAVOC
+ * (number of a_havoc_t words of scratch).
  */
 #ifndef V_ABS_H
 #define V_ABS_H
@@ -42,7 +43,8 @@
 #endif
 
 static a_word_t v_out[V_MAXCALLS][A_STW];		/* next chaining value per call (copied from IN) */
-static uint8_t v_havoc[V_MAXCALLS][A_HAVOC];		/* arbitrary bytes for the transform's scratch areas (from IN) */
+static a_havoc_t v_havoc[V_MAXCALLS][A_HAVOC];	/* arbitrary words for the transform's scratch areas (from IN); typed like
+							 * the scratch array so that the copy is word assignments, not byte surgery */
 static a_word_t v_log_st[V_MAXCALLS][A_STW];		/* chaining value seen on entry */
 static uint8_t v_log_blk[V_MAXCALLS][A_BLK];		/* block bytes seen */
 static unsigned v_ncalls;
